@@ -138,9 +138,15 @@ func ZZ_C12_values_step() {
 }
 
 // ZZ_C12_types_step: one type operation from an arbitrary state.
-func ZZ_C12_types_step() {
+func ZZ_C12_types_step()       { zzTypesStep(3) }
+func ZZ_C12_types_step_quick() { zzTypesStep(2) }
+
+func zzTypesStep(shapes int) {
 	zzFillMode = 2
-	w := zzWorldShape(zz.Choose(3), true)
+	// the table pool contains a built-in type name: an ancestor's binding of
+	// "string" must win over the built-in, which is consulted last
+	zzNames = []string{"a", "string"}
+	w := zzWorldShape(zz.Choose(shapes), true)
 	op := zz.Choose(4)
 	t := zz.Choose(len(w.real))
 	names := []string{"a", "b", "a.b", "n", "int64", "string"}
@@ -214,6 +220,7 @@ func ZZ_C12_types_step() {
 		}
 	}
 	zz.Assert(zzSameState(w, "a.b", "int64", "string"), "C12.post-state/types")
+	zzNames = []string{"a", "b"}
 }
 
 // ZZ_C12_path_step: module path resolution, including paths through names
